@@ -350,7 +350,8 @@ def structured_reads(tier):
                         yield (el, ek, (hc, hl), (tc, tl), intron)
 
 
-def build_alignment(spec, hard=(0, 0)):
+def build_alignment(spec, hard=(0, 0), extend=0):
+    """extend: the first exon is prolonged upstream by that many C bases (all other exons keep their coordinates)"""
     import pysam
     el, ek, (hc, hl), (tc, tl), intron = spec
     cig = []
@@ -366,9 +367,9 @@ def build_alignment(spec, hard=(0, 0)):
         if i:
             cig.append((N, intron))
             p += intron
-        cig.append((M, ln))
-        seq += seg_seq(kd, ln)
-        exons.append((p + 1, p + ln))
+        cig.append((M, ln + (extend if i == 0 else 0)))
+        seq += ("C" * extend if i == 0 else "") + seg_seq(kd, ln)
+        exons.append((p + 1 - (extend if i == 0 else 0), p + ln))
         p += ln
     if tl:
         cig.append((S, tl))
@@ -380,7 +381,7 @@ def build_alignment(spec, hard=(0, 0)):
     a.query_sequence = seq
     a.flag = 0
     a.reference_id = 0
-    a.reference_start = 1000
+    a.reference_start = 1000 - extend
     a.mapping_quality = 60
     a.cigartuples = cig
     return a, exons
@@ -417,6 +418,20 @@ def check_trim_real(specs):
             err = trimming_oracle(exons, ai, info0, strict_internal=False)
             if err:
                 bad.append((spec, max_fake, err + " polya_info(ea,et,ia,it)=%s" % (info0,)))
+            if max_fake == 40 and spec[2][1] == 0 and spec[1][0] not in ("A", "AT", "A+T") and sum(spec[0]) >= 17:
+                # the tail detector looks at the 3' end of the read: the same read with its first exon prolonged upstream by 64 non-A
+                # bases (no head clip, so that the examined stretch of a short read holds nothing else) reports the same tail positions
+                # (reads that are polyA from their very first aligned base are left out: there is no base before the tail to point at;
+                # so are reads whose aligned part is shorter than one 16-base window plus one base: they are never examined)
+                n += 1
+                try:
+                    a3, _ = build_alignment(spec, extend=64)
+                    res3 = (finder.find_polya_external(a3), finder.find_polya_internal(a3))
+                except Exception as e:  # noqa
+                    res3 = "EXC " + repr(e)
+                if res3 != (info0[0], info0[2]):
+                    bad.append((spec, max_fake, "upstream-extension: (external, internal) polyA positions %s, with the first exon prolonged upstream by 64 C: %s" %
+                                ((info0[0], info0[2]), res3)))
             if max_fake == 40:
                 # hard clips consume neither query nor reference: the same alignment written with H outside the soft clips (or
                 # instead of absent clips) must give the same exons and tail positions
